@@ -2599,6 +2599,136 @@ def r03_20(ctx, counts) -> RuleResult:
     return res
 
 
+def r03_21(ctx, counts) -> RuleResult:
+    """a scanning loop over a string advances its index on every iteration"""
+    from ..engine.cfg import CFG, node_writes
+    model: Model = ctx.model
+    res = RuleResult(
+        'R03.21', 'SCAN-INDEX-PROGRESS',
+        '"No call hangs": a loop `while I < N` that scans a string by position (I is used in the '
+        'loop as a subscript, slice bound or start position of a string operation, N is a name or '
+        'len(..) that the loop does not write) terminates because I grows. (a) every path from '
+        'the loop test back to the loop test passes a write of I; (b) no write of I in the loop '
+        'is a decrement (`I -= ..`, `I = I - ..`), a constant, or the result of str.find / rfind '
+        '/ index / rindex (-1 or a position that may not be ahead of I), directly or through a '
+        'local assigned from such a call, unless that value is compared with 0 or -1 in the '
+        'function. blank_comments with `k = source.find(quote, k)` restarts from 0 for ever on '
+        'an unterminated string literal.')
+    SENTINEL = ('find', 'rfind', 'index', 'rindex')
+    n = 0
+    for f in sorted(model.all_functions(), key=lambda q: q.key):
+        if '.validators' in f.module.name:
+            continue
+        whiles = [w for w in walk_local(f.node) if isinstance(w, ast.While)]
+        if not whiles:
+            continue
+        cfg = None
+        for w in whiles:
+            tests = w.test.values if isinstance(w.test, ast.BoolOp) \
+                and isinstance(w.test.op, ast.And) else [w.test]
+            idx = None
+            for t in tests:
+                if isinstance(t, ast.Compare) and len(t.ops) == 1 and \
+                        isinstance(t.ops[0], (ast.Lt, ast.LtE)) and isinstance(t.left, ast.Name):
+                    bound = t.comparators[0]
+                    if isinstance(bound, ast.Name) or (
+                            isinstance(bound, ast.Call) and dotted(bound.func) == 'len'):
+                        idx = t.left.id
+                        break
+            if idx is None:
+                continue
+            body_nodes = [x for b in w.body for x in ast.walk(b)]
+            positional = any(
+                (isinstance(x, ast.Subscript) and any(
+                    isinstance(y, ast.Name) and y.id == idx for y in ast.walk(x.slice))
+                 and isinstance(x.ctx, ast.Load))
+                or (isinstance(x, ast.Call) and isinstance(x.func, ast.Attribute)
+                    and x.func.attr in ('startswith', 'match', 'find', 'search')
+                    and any(isinstance(y, ast.Name) and y.id == idx
+                            for a_ in x.args[1:] for y in ast.walk(a_)))
+                for x in body_nodes + list(ast.walk(w.test)))
+            if not positional:
+                continue
+            n += 1
+            if cfg is None:
+                cfg = CFG(f.node)
+            label = f'{f.key}: while {stmt_text(w.test)[:40]} (L{w.lineno})'
+            head = [nd for nd in cfg.nodes if nd.kind == 'test' and nd.ast is w.test]
+            if not head:
+                raise AnalysisError(f'{label}: loop test not located in the CFG')
+            inside = {id(x) for x in body_nodes}
+
+            def writes_idx(nd) -> bool:
+                return any(t == idx for t, _ in node_writes(nd))
+            path = cfg.path_avoiding(
+                head, lambda q: q is head[0],
+                lambda q: writes_idx(q) or (q.ast is not None and q is not head[0]
+                                            and id(q.ast) not in inside
+                                            and not any(id(y) in inside for y in ast.walk(q.ast))),
+                follow=lambda lb: lb != 'exc')
+            # sentinel-valued locals of the function
+            checked: set[str] = set()
+            for x in walk_local(f.node):
+                if isinstance(x, ast.Compare) and len(x.ops) == 1 and isinstance(x.left, ast.Name):
+                    c0 = x.comparators[0]
+                    v0 = c0.value if isinstance(c0, ast.Constant) else (
+                        -c0.operand.value if isinstance(c0, ast.UnaryOp)
+                        and isinstance(c0.op, ast.USub) and isinstance(c0.operand, ast.Constant)
+                        else None)
+                    if v0 in (0, -1):
+                        checked.add(x.left.id)
+
+            def sentinel(e: ast.AST) -> bool:
+                return isinstance(e, ast.Call) and isinstance(e.func, ast.Attribute) \
+                    and e.func.attr in SENTINEL
+            sent_locals = {t.id for x in walk_local(f.node) if isinstance(x, ast.Assign)
+                           and sentinel(x.value) for t in x.targets if isinstance(t, ast.Name)}
+            bad: list[tuple[ast.AST, str]] = []
+            for x in body_nodes:
+                if isinstance(x, ast.AugAssign) and isinstance(x.target, ast.Name) \
+                        and x.target.id == idx:
+                    if isinstance(x.op, ast.Sub) or (
+                            isinstance(x.value, ast.Constant) and isinstance(x.value.value, int)
+                            and x.value.value <= 0):
+                        bad.append((x, 'moves the index backwards or not at all'))
+                elif isinstance(x, (ast.Assign, ast.NamedExpr)):
+                    tg = x.targets if isinstance(x, ast.Assign) else [x.target]
+                    if not any(isinstance(t, ast.Name) and t.id == idx for t in tg):
+                        continue
+                    v = x.value
+                    if isinstance(v, ast.Constant):
+                        bad.append((x, 'resets the index to a constant'))
+                    elif isinstance(v, ast.BinOp) and isinstance(v.op, ast.Sub) \
+                            and isinstance(v.left, ast.Name) and v.left.id == idx:
+                        bad.append((x, 'moves the index backwards'))
+                    elif any(sentinel(y) for y in ast.walk(v)) and idx not in checked:
+                        bad.append((x, 'takes the result of a search that is -1 when nothing '
+                                       'is found, and the index is never compared with 0 / -1'))
+                    elif any(isinstance(y, ast.Name) and y.id in sent_locals - checked
+                             for y in ast.walk(v)):
+                        bad.append((x, 'takes an unchecked search result (-1 when nothing is '
+                                       'found)'))
+            res.instances.append(f'{label}: every iteration writes `{idx}`: {path is None}; '
+                                 f'writes that may not advance: {len(bad)}')
+            if path is None and not bad:
+                res.ok()
+            if path is not None:
+                res.fail(finding('R03.21', f, w, f'iteration without progress of {idx}',
+                                 f'an iteration of `while {stmt_text(w.test)[:40]}` can return to '
+                                 f'the test without writing `{idx}` '
+                                 f'({cfg.fmt_path(path)[:5]}): the loop does not terminate on '
+                                 f'that input'))
+            for node, why in bad:
+                res.fail(finding('R03.21', f, node, f'scan index {stmt_text(node)[:30]}',
+                                 f'in the scanning loop `while {stmt_text(w.test)[:40]}` the '
+                                 f'statement `{stmt_text(node)[:60]}` {why}: the scan can restart '
+                                 f'behind its position and never end'))
+    counts['scan_loops'] = n
+    if n < 4:
+        raise AnalysisError(f'string scanning loops located: {n} < 4')
+    return res
+
+
 def run(ctx) -> dict:
     counts: dict[str, int] = {}
     results = [r03_1(ctx, counts), r03_2(ctx, counts), r03_3(ctx, counts), r03_4(ctx, counts),
@@ -2607,7 +2737,8 @@ def run(ctx) -> dict:
                r03_11(ctx, counts), r03_12(ctx, counts), r03_13(ctx, counts),
                r03_14(ctx, counts), r03_15(ctx, counts),
                r03_16(ctx, counts), r03_17(ctx, counts), r03_18(ctx, counts),
-               r03_19(ctx, counts), r03_20(ctx, counts)]
+               r03_19(ctx, counts), r03_20(ctx, counts),
+               r03_21(ctx, counts)]
     # "no call hangs": the lock discipline of C19 is a necessary condition (a lock left held on
     # an error path blocks every later evaluation that needs it)
     from . import c19_global
